@@ -476,6 +476,14 @@ int pthread_create(pthread_t *thread, const pthread_attr_t *attr, void *(*start)
 static __thread int tid_index = -1;
 static int tid_next = 0;
 
+/* The parent's pid is as arbitrary as the process's own: <pid> - 1 under the simulator. */
+pid_t getppid(void) {
+    init_once();
+    if (!fake_pid) return (pid_t)syscall(SYS_getppid);
+    log_mark("P\n");
+    return (pid_t)(fake_pid - 1);
+}
+
 pid_t gettid(void) {
     init_once();
     if (!fake_pid) return (pid_t)syscall(SYS_gettid);
